@@ -75,6 +75,7 @@ type run struct {
 	pollers  []*poller
 	pollDead bool
 	infra    []string
+	finished atomic.Bool // no event is logged any more
 }
 
 type poller struct {
@@ -142,7 +143,7 @@ func (r *run) crashPoint(op, name string) {
 }
 
 func (r *run) startPoller(c string) {
-	p := &poller{c: c, req: make(chan struct{}), ack: make(chan struct{}), quit: make(chan struct{})}
+	p := &poller{c: c, req: make(chan struct{}), ack: make(chan struct{}, 1), quit: make(chan struct{})}
 	r.pollMu.Lock()
 	r.pollers = append(r.pollers, p)
 	r.pollMu.Unlock()
@@ -197,12 +198,18 @@ func (r *run) pollRound() {
 
 // do issues one call, logs Issue before and Reply after it, and returns the reply.
 func (r *run) do(call map[string]any) map[string]any {
+	if r.finished.Load() {
+		return map[string]any{"err": "closed"}
+	}
 	r.mu.Lock()
 	r.nops++
 	op := r.nops
 	r.events = append(r.events, event{op: op, call: call})
 	r.mu.Unlock()
 	res, err := r.st.call(call)
+	if r.finished.Load() {
+		return map[string]any{"err": "closed"} // a straggler of a run that is already being evaluated
+	}
 	if err != nil {
 		r.infraf("call %s: %v", kit.JSON(call), err)
 		res = map[string]any{"err": "other: " + err.Error()}
@@ -211,7 +218,9 @@ func (r *run) do(call map[string]any) map[string]any {
 	}
 	res = kit.Canon(res).(map[string]any)
 	r.mu.Lock()
-	r.events = append(r.events, event{reply: true, op: op, res: res})
+	if !r.finished.Load() {
+		r.events = append(r.events, event{reply: true, op: op, res: res})
+	}
 	r.mu.Unlock()
 	return res
 }
@@ -222,6 +231,9 @@ func (r *run) finish(workers int) {
 	r.stopPollers()
 	r.crashPoint("end", "")
 	r.fs.setHook(nil)
+	r.mu.Lock()
+	r.finished.Store(true)
+	r.mu.Unlock()
 	r.st.close()
 	r.e.mfs.unmount(r.mount)
 	r.infra = append(r.infra, r.st.infra...)
